@@ -456,7 +456,7 @@ fn malleability__structural_rearrangements_are_rejected() {
 // C12: PKE and header layers
 // ---------------------------------------------------------------------------
 
-// @obl props=C12,C07 tier=quick fn=api::Covercrypt::encrypt shape="plaintext lengths 0..=40 and 4096; authorized and unauthorized key; every truncation; every single-byte change of the DEM ciphertext"
+// @obl props=C12,C14,C07 tier=quick fn=api::Covercrypt::encrypt shape="plaintext lengths 0..=40 and 4096; authorized and unauthorized key; every truncation; every single-byte change of the DEM ciphertext"
 #[test]
 fn pke__roundtrip_truncation_and_tampering() {
     let cc = Covercrypt::default();
@@ -475,7 +475,7 @@ fn pke__roundtrip_truncation_and_tampering() {
             for t in 0..ctx.1.len() {
                 let cut = (ctx.0.clone(), ctx.1[..t].to_vec());
                 let r = std::panic::catch_unwind(std::panic::AssertUnwindSafe(|| PkeAc::<{ Aes256Gcm::KEY_LENGTH }, Aes256Gcm>::decrypt(&cc, &ok, &cut)));
-                assert!(matches!(r, Ok(Err(_))), "C12: a ciphertext truncated to {t} bytes (of {}) must yield an error, never a panic or data", ctx.1.len());
+                assert!(matches!(r, Ok(Err(_))), "C12/C14: a ciphertext truncated to {t} bytes (of {}) must yield an error, never a panic or data", ctx.1.len());
                 n += 1;
             }
             for pos in 0..ctx.1.len() {
@@ -490,7 +490,7 @@ fn pke__roundtrip_truncation_and_tampering() {
     println!("VERIF-COUNT pke__roundtrip_truncation_and_tampering {n}");
 }
 
-// @obl props=C12,C16,C07 tier=quick fn=EncryptedHeader::decrypt shape="metadata absent / empty / 1 / 16 / 33 bytes x authentication data absent / empty / non-empty; mismatching authentication data; truncated and altered metadata; unauthorized key; serialization round-trip"
+// @obl props=C12,C14,C16,C07 tier=quick fn=EncryptedHeader::decrypt shape="metadata absent / empty / 1 / 16 / 33 bytes x authentication data absent / empty / non-empty; mismatching authentication data; truncated and altered metadata; unauthorized key; serialization round-trip"
 #[test]
 fn header__roundtrip_authentication_and_secret() {
     let cc = Covercrypt::default();
@@ -519,7 +519,7 @@ fn header__roundtrip_authentication_and_secret() {
                 for t in 0..ctx.len() {
                     let cut = EncryptedHeader { encapsulation: hdr.encapsulation.clone(), encrypted_metadata: Some(ctx[..t].to_vec()) };
                     let r = std::panic::catch_unwind(std::panic::AssertUnwindSafe(|| cut.decrypt(&cc, &ok, a.as_deref())));
-                    assert!(matches!(r, Ok(Err(_))), "C12: encrypted metadata truncated to {t} bytes must yield an error, never a panic or data");
+                    assert!(matches!(r, Ok(Err(_))), "C12/C14: encrypted metadata truncated to {t} bytes must yield an error, never a panic or data");
                     n += 1;
                 }
                 for pos in 0..ctx.len() {
@@ -758,6 +758,32 @@ fn freshness__repeated_calls_never_repeat() {
             n += 1;
         }
     }
+    // one shared instance used from 8 threads (barrier-synchronised rounds): still no repetition
+    {
+        use std::sync::{Arc, Barrier, Mutex};
+        let shared = Arc::new(Covercrypt::default());
+        let (_m, mpk_t) = cc_keygen(&shared, false).unwrap();
+        let mpk_t = Arc::new(mpk_t);
+        let seen = Arc::new(Mutex::new((BTreeSet::new(), BTreeSet::new(), 0usize)));
+        let barrier = Arc::new(Barrier::new(8));
+        let hs: Vec<_> = (0..8).map(|_| {
+            let (c, m, s, b) = (shared.clone(), mpk_t.clone(), seen.clone(), barrier.clone());
+            std::thread::spawn(move || {
+                for _ in 0..40 {
+                    b.wait();
+                    let (ss, e) = c.encaps(&m, &AccessPolicy::parse("SEC::LOW && DPT::FIN").unwrap()).unwrap();
+                    let mut g = s.lock().unwrap();
+                    g.0.insert(ss.to_vec());
+                    g.1.insert(e.tag);
+                    g.2 += 1;
+                }
+            })
+        }).collect();
+        for h in hs { h.join().unwrap(); }
+        let g = seen.lock().unwrap();
+        assert!(g.0.len() == g.2 && g.1.len() == g.2, "C16: {} concurrent encapsulations on a shared instance produced only {} distinct secrets / {} distinct tags", g.2, g.0.len(), g.1.len());
+        n += g.2 as u64;
+    }
     let mut ids = BTreeSet::new();
     for _ in 0..reps {
         let k = cc.generate_user_secret_key(&mut msk, &ap("DPT::FIN")).unwrap();
@@ -801,6 +827,21 @@ fn tracing__issued_keys_are_registered_and_valid() {
         n += 1;
     }
     assert!(msk.tsk.users.len() == keys.len(), "C17: exactly the issued identifiers are recorded");
+    // higher tracing levels: issued keys validate and decapsulate
+    for level in [MIN_TRACING_LEVEL + 1, MIN_TRACING_LEVEL + 3] {
+        let mut m2 = primitives::setup(level, &mut *cc.rng()).unwrap();
+        crate::abe_policy::gen_structure(&mut m2.access_structure, false).unwrap();
+        let mpk2 = cc.update_msk(&mut m2).unwrap();
+        let (ss, enc) = cc.encaps(&mpk2, &ap("DPT::MKG && SEC::TOP")).unwrap();
+        for i in 0..3 {
+            let mut k = cc.generate_user_secret_key(&mut m2, &ap("DPT::MKG && SEC::TOP")).unwrap();
+            assert!(m2.tsk._validate_user_id(&k.id) && m2.tsk.is_known(&k.id), "C17: level {level}: issued key #{i} does not satisfy the tracing relation or is not registered");
+            assert!(cc.decaps(&k, &enc).unwrap().as_ref() == Some(&ss), "C17/C01: level {level}: issued key #{i} does not open an encapsulation it is authorized for");
+            cc.refresh_usk(&mut m2, &mut k, i % 2 == 0).unwrap();
+            assert!(m2.tsk._validate_user_id(&k.id) && cc.decaps(&k, &enc).unwrap().as_ref() == Some(&ss), "C17: level {level}: refreshed key #{i} is invalid");
+            n += 1;
+        }
+    }
     // a key of another master key is refused and nothing changes
     let (mut other, _) = cc_keygen(&cc, false).unwrap();
     other.signing_key = None;
